@@ -9,6 +9,14 @@
 //!   [3; L; tmo_ms; njobs; (panics dur_us)*]                             Runtime::spawn_blocking
 //!   [4; L; tmo_ms; drv; k; rounds; dur_us]    k jobs finishing at the same instant while the driver
 //!                                             sleeps in poll(4 s): every result must wake it
+//!   [5; L; tmo_ms; sub; m; drv]   the OS refuses a thread exactly when the pool must grow: a CHILD process
+//!        of this binary (`--fault-child`) occupies m < L workers, lowers RLIMIT_AS to just above its
+//!        VmSize (the 2 MiB stack mmap of a new thread fails), calls dispatch (sub 0) / Proactor::push of
+//!        an Asyncify op (sub 1), restores the limit; a control thread::Builder::spawn under the same
+//!        limit must fail too (else the case is inconclusive).  extras = [outcome; control; ran; recovered]
+//!        outcome 1 panic reached the caller, 2 Err with the same closure, 3 Ok / Pending, 4 Err with
+//!        another closure, 0 child died; ran: the job ran / the op completed afterwards; recovered: after
+//!        the fault is lifted and the workers retired the pool again runs L jobs at once (2 = not tried)
 //! out:
 //!   [n_ev; (kind a b)*; njobs; (owner panics runner first runs status)*; max_gauge; L; hang; dropped; D;
 //!    lost_wake; timed_out_polls; max_poll_ms; rounds_done]
@@ -417,21 +425,29 @@ fn mode4(l: usize, tmo: Duration, drv: u64, k: u64, rounds: u64, dur_us: u64) ->
             break; // a slow machine: fewer rounds, not a finding
         }
         let arrived = Arc::new(AtomicUsize::new(0));
+        // nanoseconds after `t_case` at which every job of the round returns (set by the last to arrive)
+        let release_at = Arc::new(AtomicU64::new(0));
         let mut keys: Vec<(Arc<JobRec>, Option<Key<BlockOp>>)> = vec![];
         for i in 0..k {
             let rec = jobs[(r * k + i) as usize].clone();
-            let (gauge, arrived, rec2) = (gauge.clone(), arrived.clone(), rec.clone());
+            let (gauge, arrived, rec2, release_at) = (gauge.clone(), arrived.clone(), rec.clone(), release_at.clone());
             let f: BlockFn = Box::new(move || {
                 verif::emit(H_JSTART, rec2.tok, 0);
                 rec2.runs.fetch_add(1, SeqCst);
                 gauge.enter();
-                arrived.fetch_add(1, SeqCst);
                 let t0 = Instant::now();
-                // leave together (give up after a long while so that nothing can hang here)
-                while arrived.load(SeqCst) < k as usize && t0.elapsed() < Duration::from_secs(20) {
+                if arrived.fetch_add(1, SeqCst) + 1 == k as usize {
+                    // the driver thread needs a moment to fall asleep in poll
+                    release_at.store((t_case.elapsed() + rec2.dur).as_nanos() as u64 + 1, SeqCst);
+                }
+                // all k return at the same instant (give up after a long while: nothing can hang here)
+                loop {
+                    let at = release_at.load(SeqCst);
+                    if (at != 0 && t_case.elapsed().as_nanos() as u64 >= at) || t0.elapsed() > Duration::from_secs(20) {
+                        break;
+                    }
                     std::hint::spin_loop();
                 }
-                std::thread::sleep(rec2.dur);
                 gauge.leave();
                 let v = rec2.tok + 7;
                 BufResult(Ok(v as usize), v)
@@ -507,6 +523,12 @@ fn mode4(l: usize, tmo: Duration, drv: u64, k: u64, rounds: u64, dur_us: u64) ->
                 }
             }
             _ => {}
+        }
+    }
+    if lost != 0 && std::env::var_os("C17_DUMP").is_some() {
+        // dev aid: the raw log of a lost wake-up
+        for e in events.iter() {
+            eprintln!("{} {} {} t{}", e.kind, e.a, e.b, e.thread);
         }
     }
     events.retain(|e| !matches!(e.kind, H_TICK | H_POLL_END | H_POP));
@@ -731,6 +753,237 @@ fn encode(c: &CaseOut, l: u64, d_n: u64, hang: u64) -> Vec<u64> {
     out
 }
 
+// ---------------------------------------------------------------------------------------------
+// mode 5: thread creation refused at pool growth (runs in a child process)
+
+fn vm_bytes() -> u64 {
+    let s = std::fs::read_to_string("/proc/self/statm").unwrap_or_default();
+    let pages: u64 = s.split_whitespace().next().and_then(|t| t.parse().ok()).unwrap_or(0);
+    pages * unsafe { libc::sysconf(libc::_SC_PAGESIZE) } as u64
+}
+
+/// run `f` with the address-space limit just above what the process uses now: small heap growth
+/// still works, the 2 MiB stack of a new thread does not
+fn with_as_limit<R>(f: impl FnOnce() -> R) -> R {
+    unsafe {
+        let mut old = std::mem::zeroed::<libc::rlimit>();
+        libc::getrlimit(libc::RLIMIT_AS, &mut old);
+        let new = libc::rlimit { rlim_cur: vm_bytes() + (1 << 20), rlim_max: old.rlim_max };
+        libc::setrlimit(libc::RLIMIT_AS, &new);
+        let r = f();
+        libc::setrlimit(libc::RLIMIT_AS, &old);
+        r
+    }
+}
+
+struct GatedJob {
+    tok: u64,
+    started: Arc<AtomicUsize>,
+    ran: Arc<AtomicU64>,
+    gate: Arc<AtomicU64>,
+}
+
+impl Dispatchable for GatedJob {
+    fn run(self: Box<Self>) {
+        self.started.fetch_add(1, SeqCst);
+        let t0 = Instant::now();
+        while self.gate.load(SeqCst) == 0 && t0.elapsed() < Duration::from_secs(60) {
+            std::thread::sleep(Duration::from_millis(1));
+        }
+        self.ran.fetch_add(1, SeqCst);
+    }
+}
+
+fn wait_for(cond: impl Fn() -> bool, limit: Duration) -> bool {
+    let t0 = Instant::now();
+    while !cond() {
+        if t0.elapsed() > limit {
+            return false;
+        }
+        std::thread::sleep(Duration::from_millis(1));
+    }
+    true
+}
+
+/// after the fault: let every worker retire, then the pool must again run `l` jobs at once
+fn pool_recovers(pool: &AsyncifyPool, l: usize, tmo: Duration) -> u64 {
+    std::thread::sleep(tmo + Duration::from_millis(30));
+    let started = Arc::new(AtomicUsize::new(0));
+    let ran = Arc::new(AtomicU64::new(0));
+    let gate = Arc::new(AtomicU64::new(0));
+    let t0 = Instant::now();
+    for i in 0..l {
+        let mut job = GatedJob { tok: 100 + i as u64, started: started.clone(), ran: ran.clone(), gate: gate.clone() };
+        loop {
+            match pool.dispatch(job) {
+                Ok(()) => break,
+                Err(e) => {
+                    job = e.0;
+                    if t0.elapsed() > DEADLINE {
+                        gate.store(1, SeqCst);
+                        return 0;
+                    }
+                    std::thread::sleep(Duration::from_millis(1));
+                }
+            }
+        }
+    }
+    let ok = wait_for(|| started.load(SeqCst) == l, DEADLINE);
+    gate.store(1, SeqCst);
+    ok as u64
+}
+
+fn fault_child(args: &[String]) {
+    std::panic::set_hook(Box::new(|_| {}));
+    let num = |i: usize| args.get(i).and_then(|s| s.parse::<u64>().ok()).unwrap_or(0);
+    let (sub, l, tmo_ms, m, drv) = (num(0), num(1) as usize, num(2), num(3) as usize, num(4));
+    let tmo = Duration::from_millis(tmo_ms);
+    let started = Arc::new(AtomicUsize::new(0));
+    let ran = Arc::new(AtomicU64::new(0));
+    let gate = Arc::new(AtomicU64::new(0));
+    let faulted_ran = Arc::new(AtomicU64::new(0));
+    let (outcome, control, ran_after, recovered);
+    if sub == 0 {
+        let pool = AsyncifyPool::new(l, tmo);
+        for i in 0..m {
+            let _ = pool.dispatch(GatedJob { tok: i as u64, started: started.clone(), ran: ran.clone(), gate: gate.clone() });
+        }
+        wait_for(|| started.load(SeqCst) == m, DEADLINE);
+        let open = Arc::new(AtomicU64::new(1));
+        let job = GatedJob { tok: 77, started: Arc::new(AtomicUsize::new(0)), ran: faulted_ran.clone(), gate: open };
+        let (r, c) = with_as_limit(|| {
+            let r = catch_unwind(AssertUnwindSafe(|| pool.dispatch(job)));
+            let c = std::thread::Builder::new().spawn(|| {});
+            (r, c)
+        });
+        control = c.is_err() as u64;
+        if let Ok(h) = c {
+            let _ = h.join();
+        }
+        outcome = match r {
+            Err(_) => 1,
+            Ok(Err(e)) => {
+                if e.0.tok == 77 {
+                    2
+                } else {
+                    4
+                }
+            }
+            Ok(Ok(())) => 3,
+        };
+        gate.store(1, SeqCst);
+        ran_after = if outcome == 3 {
+            wait_for(|| faulted_ran.load(SeqCst) == 1, Duration::from_secs(20)) as u64
+        } else {
+            std::thread::sleep(Duration::from_millis(20));
+            faulted_ran.load(SeqCst)
+        };
+        wait_for(|| ran.load(SeqCst) == m as u64, DEADLINE);
+        recovered = pool_recovers(&pool, l, tmo);
+    } else {
+        let mut builder = ProactorBuilder::new();
+        builder
+            .driver_type(if drv == 0 { DriverType::IoUring } else { DriverType::Poll })
+            .thread_pool_limit(l)
+            .thread_pool_recv_timeout(tmo);
+        let Ok(mut p) = builder.build() else {
+            println!("0 0 0 2");
+            return;
+        };
+        let fr = faulted_ran.clone();
+        let f: BlockFn = Box::new(move || {
+            fr.fetch_add(1, SeqCst);
+            BufResult(Ok(5), 5)
+        });
+        let op = Asyncify::new(f);
+        let (r, c) = with_as_limit(|| {
+            let r = catch_unwind(AssertUnwindSafe(|| p.push(op)));
+            let c = std::thread::Builder::new().spawn(|| {});
+            (r, c)
+        });
+        control = c.is_err() as u64;
+        if let Ok(h) = c {
+            let _ = h.join();
+        }
+        match r {
+            Err(_) => {
+                // the panic came out of Proactor::push: visible to the submitter
+                outcome = 1;
+                ran_after = faulted_ran.load(SeqCst);
+                std::mem::forget(p);
+            }
+            Ok(PushEntry::Ready(_)) => {
+                outcome = 3;
+                ran_after = 1;
+            }
+            Ok(PushEntry::Pending(key)) => {
+                outcome = 3;
+                // accepted: the operation must complete
+                let t0 = Instant::now();
+                let mut slot = Some(key);
+                let mut done = 0;
+                while t0.elapsed() < Duration::from_secs(20) && done == 0 {
+                    let _ = p.poll(Some(Duration::from_millis(20)));
+                    if let Some(k) = slot.take() {
+                        match catch_unwind(AssertUnwindSafe(|| p.pop(k))) {
+                            Ok(PushEntry::Pending(k)) => slot = Some(k),
+                            _ => done = 1, // a result, or the panic re-raised at the submitter
+                        }
+                    }
+                }
+                ran_after = done;
+                std::mem::forget(slot);
+            }
+        }
+        recovered = 2;
+    }
+    println!("{outcome} {control} {ran_after} {recovered}");
+}
+
+fn mode5(l: u64, tmo_ms: u64, sub: u64, m: u64, drv: u64) -> Vec<u64> {
+    use std::process::{Command, Stdio};
+    let exe = std::env::current_exe().expect("current_exe");
+    let child = Command::new(exe)
+        .arg("--fault-child")
+        .args([sub, l, tmo_ms, m, drv].map(|x| x.to_string()))
+        .stdin(Stdio::null())
+        .stdout(Stdio::piped())
+        .stderr(Stdio::null())
+        .spawn();
+    let mut extra = [0u64; 4];
+    let mut hang = 0;
+    if let Ok(mut child) = child {
+        let t0 = Instant::now();
+        let status = loop {
+            match child.try_wait() {
+                Ok(Some(st)) => break Some(st),
+                Ok(None) if t0.elapsed() > WATCHDOG + WATCHDOG => {
+                    let _ = child.kill();
+                    let _ = child.wait();
+                    break None;
+                }
+                Ok(None) => std::thread::sleep(Duration::from_millis(5)),
+                Err(_) => break None,
+            }
+        };
+        if status.is_none() {
+            hang = 1;
+        }
+        let mut out = String::new();
+        if let Some(mut so) = child.stdout.take() {
+            use std::io::Read;
+            let _ = so.read_to_string(&mut out);
+        }
+        let v: Vec<u64> = out.split_whitespace().filter_map(|t| t.parse().ok()).collect();
+        if v.len() == 4 {
+            extra.copy_from_slice(&v);
+        }
+    }
+    let mut out = vec![0, 0, 0, l, hang, 0, 1];
+    out.extend_from_slice(&extra);
+    out
+}
+
 static SERIAL: Mutex<()> = Mutex::new(());
 
 fn run(case: &[u64]) -> Result<Vec<u64>, BadCase> {
@@ -740,6 +993,15 @@ fn run(case: &[u64]) -> Result<Vec<u64>, BadCase> {
     let tmo_ms = c.take()?;
     if !(1..=8).contains(&l) || tmo_ms > 100 {
         return Err(BadCase);
+    }
+    if mode == 5 {
+        let sub = c.take()?;
+        let m = c.take()?;
+        let drv = c.take()?;
+        if sub > 1 || m >= l || drv > 1 || c.i != case.len() {
+            return Err(BadCase);
+        }
+        return Ok(mode5(l, tmo_ms, sub, m, drv));
     }
     let tmo = Duration::from_millis(tmo_ms);
     let us = |x: u64| if x > 60_000 { Err(BadCase) } else { Ok(x) };
@@ -854,5 +1116,10 @@ fn run(case: &[u64]) -> Result<Vec<u64>, BadCase> {
 }
 
 fn main() {
+    let args: Vec<String> = std::env::args().collect();
+    if args.get(1).map(|s| s.as_str()) == Some("--fault-child") {
+        fault_child(&args[2..]);
+        return;
+    }
     main_loop(run);
 }
